@@ -1155,7 +1155,10 @@ static void caseLEM(Ctx& c, long idx, Rng& r) {
             c.check("lem-stationary:tree:" + fk, rs, 2 * tolerance + 1e-6, [&] { return W().set("scaledGradient", rs).set("gradientInf", pg); });
         } else
             // constrained -> IPOPT with tol = dual_inf_tol = tolerance (absolute, unscaled)
-            c.check("lem-stationary:constrained:" + fk, pg, 10 * tolerance + 1e-7 * (1 + fs1), [&] { return W().set("projectedGradient", pg); });
+            // The returned point is IPOPT's solution moved onto the constraint manifold (the optimizer only
+            // guarantees |c| <= ctol): a displacement of up to ctol changes the gradient by |Hessian| * ctol, with
+            // |Hessian| of the order of the force scale per unit length (DESIGN section 8 no. 12).
+            c.check("lem-stationary:constrained:" + fk, pg, 10 * tolerance + 1e-7 * (1 + fs1) + ctol * (1 + fs1), [&] { return W().set("projectedGradient", pg); });
         (void)xn;
     }
     if (c.wantSample()) c.sample(W().set("tool", "LocalEnergyMinimizer"));
